@@ -136,7 +136,7 @@ def structural_mutations(rng, data, n):
         v = rng.choice(EXTREMES)
         s = h.main_streams
         fi = h.files_info
-        what = rng.randrange(12)
+        what = rng.randrange(14)
         try:
             if what == 0 and s:
                 s.packinfo.packsizes[rng.randrange(len(s.packinfo.packsizes))] = v
@@ -167,6 +167,19 @@ def structural_mutations(rng, data, n):
                 s.unpackinfo.numfolders = len(s.unpackinfo.folders)
             elif what == 11 and fi:
                 fi.files = fi.files + [dict(f) for f in fi.files]
+            elif what in (12, 13) and s:
+                # coordinated: the header promises more packed AND more unpacked bytes than the file holds,
+                # so the coder runs dry while the loop still believes input is left
+                big = rng.choice([2 ** 32, 2 ** 40, 2 ** 48, 2 ** 63 - 1, 2 ** 63, 2 ** 64 - 1])
+                delta = rng.choice([1, 1000, 2 ** 20, 2 ** 31])
+                k = rng.randrange(len(s.unpackinfo.folders))
+                f = s.unpackinfo.folders[k]
+                f.unpacksizes = [u + delta for u in f.unpacksizes]
+                nums = s.substreamsinfo.num_unpackstreams_folders
+                if s.substreamsinfo.unpacksizes and sum(nums[: k + 1]) - 1 < len(s.substreamsinfo.unpacksizes) and nums[k] > 0:
+                    s.substreamsinfo.unpacksizes[sum(nums[: k + 1]) - 1] += delta
+                ps = s.packinfo.packsizes
+                ps[min(k, len(ps) - 1) if what == 12 else len(ps) - 1] = big
             buf = io.BytesIO()
             h.write(buf, 0, encoded=False)
             out.append(("struct%d" % what, seal(payload, buf.getvalue())))
